@@ -254,52 +254,38 @@ func c04Parser(c *Ctx, P *ssa.Function) {
 			}
 		}
 	}
-	if len(rdnLoops) != 1 || len(attrLoops) != 1 {
-		c.Unk("parser/loops", "anchor: loops over RDNs and their attributes", w.FnPos(P), fmt.Sprintf("not recognised (%d loops over the RDNs of the parsed name, %d over the attributes of the current RDN)", len(rdnLoops), len(attrLoops)))
+	// How the attributes of the current RDN are visited (c04AttrVisit): by a loop over them, or — no such loop — by
+	// straight-line handling of the attribute at constant index 0, which is every attribute there is exactly because an
+	// iteration over an RDN completes only under len(Attributes) <= 1 (the multi-valued gate below, required in both forms).
+	var visit *c04AttrVisit
+	if len(rdnLoops) == 1 && len(attrLoops) == 1 {
+		visit = c04VisitByLoop(attrLoops[0])
+	} else if len(rdnLoops) == 1 && len(attrLoops) == 0 {
+		visit = c04VisitFirstOnly(frames, rdnLoops[0])
+	}
+	if visit == nil {
+		c.Unk("parser/loops", "anchor: loops over RDNs and their attributes", w.FnPos(P), fmt.Sprintf("not recognised (%d loops over the RDNs of the parsed name, %d over the attributes of the current RDN, and no read of the attribute at constant index 0 of the current RDN instead)", len(rdnLoops), len(attrLoops)))
 		return
 	}
-	rdnLoop, attrLoop := rdnLoops[0], attrLoops[0]
-	for _, la := range []*c04LoopAt{rdnLoop, attrLoop} {
-		c.SeenFn(la.f.fn.String())
+	rdnLoop := rdnLoops[0]
+	c.SeenFn(rdnLoop.f.fn.String())
+	c.SeenFn(visit.f.fn.String())
+	rfi, afi := w.Info(rdnLoop.f.fn), w.Info(visit.f.fn)
+	// visited: no handling of an attribute (an iteration of the attribute loop; of the RDN loop in the first-only form) runs
+	// to its end other than through a branch edge that states one of the facts sel selects or, first-only form, that the RDN
+	// has no attribute at all (then there is nothing to handle)
+	completes := func(sel func(string) bool) bool {
+		cut := c04Cut(w, visit.f, func(l string) bool { return sel(l) || visit.none(l) })
+		for e := range visit.noneEdges {
+			cut[e] = true
+		}
+		return afi.reachHit([]state{{visit.start, 0, -1}}, cut, visit.hdr)
 	}
-	rfi, afi := w.Info(rdnLoop.f.fn), w.Info(attrLoop.f.fn)
 	linked := func(f *c04Frame) (bool, string) {
 		if l := links[f]; l != nil && l.linked {
 			return true, ""
 		}
 		return false, "a failure of " + fnName(f.fn) + " does not fail the parse on every path; "
-	}
-	// every RDN and every attribute is read: a parse that succeeds left both loops by exhaustion (an attribute of the
-	// identity that is never read is an attribute the subject is never asked for)
-	{
-		var wit []string
-		why := ""
-		for _, la := range []*c04LoopAt{rdnLoop, attrLoop} {
-			ok, y := linked(la.f)
-			if !strings.Contains(why, y) {
-				why += y
-			}
-			if ok && wit == nil {
-				wit = c04LeavesEarlyMode(w.Info(la.f.fn), la.l, links[la.f].succ)
-			}
-		}
-		c.Evals += 2
-		if wit != nil {
-			why += "the parse can succeed after leaving a loop before its end"
-		}
-		c.Check(wit == nil && why == "", "parser/every-attribute-read", "a successful parse has iterated over all RDNs and all their attributes", w.InstrPos(blockTerm(rdnLoop.l.Header)), why, wit...)
-	}
-	// multi-valued RDN: an iteration over an RDN completes only under len(Attributes) <= 1 — a multi-valued RDN never lets
-	// the loop go on, so the parse fails on it (the test may precede the attribute loop or sit in the helper that runs it)
-	{
-		sel := func(l string) bool {
-			return l == "LE(len("+attrLoop.x+"),const:1)" || l == "LT(len("+attrLoop.x+"),const:2)"
-		}
-		ok, why := linked(rdnLoop.f)
-		done := rfi.reachHit([]state{{rdnLoop.l.Body.Index, 0, -1}}, c04Cut(w, rdnLoop.f, sel), map[int]bool{rdnLoop.l.Header.Index: true})
-		labels, _ := rfi.mustPassBetween([]int{rdnLoop.l.Body.Index}, map[int]bool{rdnLoop.l.Header.Index: true})
-		c.Evals++
-		c.Check(ok && !done, "parser/multi-valued-rdn", "per-RDN gate: attributes are read only from single-valued RDNs (multi-valued RDN fails)", w.InstrPos(blockTerm(rdnLoop.l.Header)), why+"facts of a completed iteration: "+summarizeLabels(labels, 6))
 	}
 	// the stores into the result map, wherever they sit below the attribute loop
 	var stores []*c04StoreAt
@@ -312,28 +298,78 @@ func c04Parser(c *Ctx, P *ssa.Function) {
 			}
 		}
 	}
-	elem := attrLoop.x + "[" + attrLoop.idx + "]"
+	// "no value yet under the key that is stored" (the fact under which an attribute is recorded)
+	empty := func(st *c04StoreAt) func(string) bool {
+		e := st.f.up(desc(st.mu.Map) + "[" + desc(st.mu.Key) + "]")
+		return func(l string) bool { return l == "EQ("+e+`,const:"")` || l == "F(ok("+e+"))" }
+	}
+	anyEmpty := func(l string) bool {
+		for _, st := range stores {
+			if empty(st)(l) {
+				return true
+			}
+		}
+		return false
+	}
+	// every RDN and every attribute is read: a parse that succeeds left both loops by exhaustion (an attribute of the
+	// identity that is never read is an attribute the subject is never asked for). First-only form: the RDN loop was left by
+	// exhaustion, and an iteration over an RDN that has an attribute completes only through the test under which the
+	// attribute at index 0 is recorded — with at most one attribute per RDN (multi-valued gate) that is every attribute.
+	{
+		var wit []string
+		why := ""
+		las := []*c04LoopAt{rdnLoop}
+		if visit.loop != nil {
+			las = append(las, visit.loop)
+		}
+		for _, la := range las {
+			ok, y := linked(la.f)
+			if !strings.Contains(why, y) {
+				why += y
+			}
+			if ok && wit == nil {
+				wit = c04LeavesEarlyMode(w.Info(la.f.fn), la.l, links[la.f].succ)
+			}
+		}
+		c.Evals += 2
+		if wit != nil {
+			why += "the parse can succeed after leaving a loop before its end"
+		}
+		if visit.loop == nil {
+			ok, y := linked(visit.f)
+			if !strings.Contains(why, y) {
+				why += y
+			}
+			if ok && (len(stores) == 0 || completes(anyEmpty)) {
+				why += "no loop over the attributes of an RDN, and an iteration over an RDN that has attributes completes without recording the attribute at index 0"
+			}
+		}
+		c.Check(wit == nil && why == "", "parser/every-attribute-read", "a successful parse has iterated over all RDNs and all their attributes", w.InstrPos(blockTerm(rdnLoop.l.Header)), why, wit...)
+	}
+	// multi-valued RDN: an iteration over an RDN completes only under len(Attributes) <= 1 — a multi-valued RDN never lets
+	// the loop go on, so the parse fails on it (the test may precede the attribute loop or sit in the helper that runs it)
+	{
+		// len <= 1 said in any of its forms; `len == 1` and `len == 0` (`switch len(..)`, `if len(..) != 1`) each imply it
+		n := "len(" + visit.x + "),const:"
+		sel := func(l string) bool {
+			return l == "LE("+n+"1)" || l == "LT("+n+"2)" || l == "EQ("+n+"1)" || l == "EQ("+n+"0)"
+		}
+		ok, why := linked(rdnLoop.f)
+		done := rfi.reachHit([]state{{rdnLoop.l.Body.Index, 0, -1}}, c04Cut(w, rdnLoop.f, sel), map[int]bool{rdnLoop.l.Header.Index: true})
+		labels, _ := rfi.mustPassBetween([]int{rdnLoop.l.Body.Index}, map[int]bool{rdnLoop.l.Header.Index: true})
+		c.Evals++
+		c.Check(ok && !done, "parser/multi-valued-rdn", "per-RDN gate: attributes are read only from single-valued RDNs (multi-valued RDN fails)", w.InstrPos(blockTerm(rdnLoop.l.Header)), why+"facts of a completed iteration: "+summarizeLabels(labels, 6))
+	}
+	elem := visit.elem
 	if len(stores) == 0 {
 		c.Bad("parser/duplicate", "per-attribute gate: an attribute is stored only if no value was stored for its type before; otherwise the parse fails", w.FnPos(P), "no store into the result map found")
 		c.Bad("parser/alias-S-ST", "the attribute type S is rewritten to ST before it is stored", w.FnPos(P), "no store into the result map found")
 	} else {
-		// duplicates: an iteration over an attribute completes only under "no value yet under the key that is stored", and
+		// duplicates: the handling of an attribute completes only under "no value yet under the key that is stored", and
 		// each store stands under that fact
-		empty := func(st *c04StoreAt) func(string) bool {
-			e := st.f.up(desc(st.mu.Map) + "[" + desc(st.mu.Key) + "]")
-			return func(l string) bool { return l == "EQ("+e+`,const:"")` || l == "F(ok("+e+"))" }
-		}
-		anyEmpty := func(l string) bool {
-			for _, st := range stores {
-				if empty(st)(l) {
-					return true
-				}
-			}
-			return false
-		}
-		ok, why := linked(attrLoop.f)
-		done := afi.reachHit([]state{{attrLoop.l.Body.Index, 0, -1}}, c04Cut(w, attrLoop.f, anyEmpty), map[int]bool{attrLoop.l.Header.Index: true})
-		labels, _ := afi.mustPassBetween([]int{attrLoop.l.Body.Index}, map[int]bool{attrLoop.l.Header.Index: true})
+		ok, why := linked(visit.f)
+		done := completes(anyEmpty)
+		labels, _ := afi.mustPassBetween([]int{visit.start}, visit.hdr)
 		for _, st := range stores {
 			c.SeenFn(st.f.fn.String())
 			site := w.InstrPos(st.mu)
@@ -343,13 +379,13 @@ func c04Parser(c *Ctx, P *ssa.Function) {
 					guarded = true
 				}
 			}
-			inLoop := st.f.under(attrLoop.f) && (st.f != attrLoop.f || loopBlocks(attrLoop.l.Header)[st.mu.Block().Index])
+			inLoop := st.f.under(visit.f) && (st.f != visit.f || visit.blocks[st.mu.Block().Index])
 			c.Evals += 2
 			c.Check(ok && !done && guarded && inLoop, "parser/duplicate", "per-attribute gate: an attribute is stored only if no value was stored for its type before; otherwise the parse fails", site,
 				fmt.Sprintf("%sa duplicate attribute does not fail the parse (iteration gated=%v store guarded=%v store inside the attribute loop=%v); per-iteration facts: %s", why, !done, guarded, inLoop, summarizeLabels(labels, 6)))
 			// value stored is the attribute's Value, key its Type (of the attribute of this iteration), the key possibly after
 			// the S -> ST aliasing
-			keyT, aliasOK, aliasWhy := c04AliasedKey(w, st, attrLoop)
+			keyT, aliasOK, aliasWhy := c04AliasedKey(w, st, visit)
 			c.Check(st.f.up(desc(st.mu.Value)) == elem+".Value" && keyT != "" && st.f.up(keyT) == elem+".Type",
 				"parser/stores-type-value", "the map entry is attribute.Type -> attribute.Value", site, st.f.up(desc(st.mu.Key))+" -> "+st.f.up(desc(st.mu.Value)))
 			c.Evals++
@@ -391,7 +427,7 @@ func c04Parser(c *Ctx, P *ssa.Function) {
 //
 // In all of them the map key is "ST" exactly when the attribute type is "S" and the attribute type otherwise, which is the
 // clause (S is an alias of ST); T itself is checked against the attribute by the caller.
-func c04AliasedKey(w *World, st *c04StoreAt, attrLoop *c04LoopAt) (string, bool, string) {
+func c04AliasedKey(w *World, st *c04StoreAt, visit *c04AttrVisit) (string, bool, string) {
 	fi := w.Info(st.f.fn)
 	mu := st.mu
 	isST := func(v ssa.Value) bool {
@@ -510,11 +546,11 @@ func c04AliasedKey(w *World, st *c04StoreAt, attrLoop *c04LoopAt) (string, bool,
 	for _, x := range sts {
 		cutInto(fi, x.Block(), cut)
 	}
-	// from where the attribute of this iteration comes into being: the body of the attribute loop, or the entry of the helper
-	// that is handed the attribute
+	// from where the attribute of this iteration comes into being: the body of the attribute loop (of the RDN loop in the
+	// first-only form), or the entry of the helper that is handed the attribute
 	start := 0
-	if st.f == attrLoop.f {
-		start = attrLoop.l.Body.Index
+	if st.f == visit.f {
+		start = visit.start
 	}
 	if mu.Block().Index == start || fi.reachHit([]state{{start, 0, -1}}, cut, blocksOf(mu)) {
 		return td, false, "the attribute store is reachable with Type == \"S\" without the rewrite to \"ST\""
